@@ -1,4 +1,5 @@
 SPECIFICATION Spec
-CONSTANT Mutant = "audience_skipped"
+CONSTANTS Mutant = "audience_skipped"
+  Full = FALSE
 INVARIANTS InvTypes InvSignature InvUnsigned InvAlgKey InvAlgAllowed InvIssuer InvAudience InvScopes InvValidity InvKidUnique InvMerge InvRefines InvVerdict
 CHECK_DEADLOCK FALSE
